@@ -200,6 +200,9 @@ type optRow struct {
 	Gate   func(st *State) int // three-valued gate over the decided atoms
 	Global []string            // each must occur in the canonical rendering of the emitted value
 	Stop   *bool               // required stop result on the emitting path (nil = not constrained)
+	// ListedOrAbsent: the specification of this DHCPv4 row is "the request list names the
+	// option, or there is no list" (checked separately from Gate: EMPTY-LIST)
+	ListedOrAbsent bool
 }
 
 type optSpec struct {
@@ -221,10 +224,30 @@ func reqFact(kind, pat string) func(st *State) int {
 }
 
 func isReq4(code string) func(st *State) int {
-	return reqFact("bool", `^\(\*`+reQ(pkgDHCP4)+`\.DHCPv4\)\.IsOptionRequested(@(?:[\w$]+·)?t\d+)?\(\$0,`+reQ(code)+`\)$`)
+	isReq := reqFact("bool", `^\(\*`+reQ(pkgDHCP4)+`\.DHCPv4\)\.IsOptionRequested(@(?:[\w$]+·)?t\d+)?\(\$0,`+reQ(code)+`\)$`)
+	// the same entitlement spelled out: no list at all, or the option is a member of the decoded list
+	has := reqFact("bool", `^\(`+reQ(pkgDHCP4)+`\.Options\)\.Has(@(?:[\w$]+·)?t\d+)?\(\$0\.Options,55\)$`)
+	member := reqFact("bool", `^\(`+reQ(pkgDHCP4)+`\.OptionCodeList\)\.Has(@(?:[\w$]+·)?t\d+)?\(\(\*`+reQ(pkgDHCP4)+`\.DHCPv4\)\.ParameterRequestList(@(?:[\w$]+·)?t\d+)?\(\$0\),`+reQ(code)+`\)$`)
+	return func(st *State) int {
+		if v := isReq(st); v != -1 {
+			return v
+		}
+		return or3(not3(has(st)), member(st))
+	}
 }
 
 func always(st *State) int { return 1 }
+
+// memberTestedOnly: the path found the option missing from the decoded request
+// list without having asked whether there is a list at all (neither through
+// IsOptionRequested, which answers true for an absent list, nor Options.Has).
+func memberTestedOnly(st *State, code string) bool {
+	isReq := reqFact("bool", `^\(\*`+reQ(pkgDHCP4)+`\.DHCPv4\)\.IsOptionRequested(@(?:[\w$]+·)?t\d+)?\(\$0,`+reQ(code)+`\)$`)
+	has := reqFact("bool", `^\(`+reQ(pkgDHCP4)+`\.Options\)\.Has(@(?:[\w$]+·)?t\d+)?\(\$0\.Options,55\)$`)
+	member := reqFact("bool", `^\(`+reQ(pkgDHCP4)+`\.OptionCodeList\)\.Has(@(?:[\w$]+·)?t\d+)?\(\(\*`+reQ(pkgDHCP4)+`\.DHCPv4\)\.ParameterRequestList(@(?:[\w$]+·)?t\d+)?\(\$0\),`+reQ(code)+`\)$`)
+	lstNil, _ := histFact(st, "nil", regexp.MustCompile(`^\(\*`+reQ(pkgDHCP4)+`\.DHCPv4\)\.ParameterRequestList(@(?:[\w$]+·)?t\d+)?\(\$0\)$`))
+	return member(st) == 0 && isReq(st) == -1 && has(st) == -1 && lstNil == -1
+}
 
 func ruleOptions(c *Ctx, prefix string) {
 	k4 := func(n string) string { return c.P.mustConst(c.R, pkgDHCP4, n) }
@@ -234,11 +257,11 @@ func ruleOptions(c *Ctx, prefix string) {
 	inner6 := `invoke:` + reQ(pkgDHCP6) + `\.DHCPv6\.GetInnerMessage\(\$0\)#0`
 	boot := k4("OpcodeBootRequest")
 	specs := []optSpec{
-		{Pkg: "dns", Fn: "Handler4", RespIdx: 1, Rows: []optRow{{Name: "dns v4", Code: k4("OptionDomainNameServer"), Gate: isReq4(k4("OptionDomainNameServer")), Global: []string{pp + "dns.dnsServers4"}, Stop: &fa}}},
+		{Pkg: "dns", Fn: "Handler4", RespIdx: 1, Rows: []optRow{{Name: "dns v4", Code: k4("OptionDomainNameServer"), Gate: isReq4(k4("OptionDomainNameServer")), Global: []string{pp + "dns.dnsServers4"}, Stop: &fa, ListedOrAbsent: true}}},
 		{Pkg: "dns", Fn: "Handler6", RespIdx: 1, Rows: []optRow{{Name: "dns v6", Code: k6("OptionDNSRecursiveNameServer"),
 			Gate:   reqFact("bool", `^\(\*`+reQ(pkgDHCP6)+`\.Message\)\.IsOptionRequested(@(?:[\w$]+·)?t\d+)?\(`+inner6+`,`+reQ(k6("OptionDNSRecursiveNameServer"))+`\)$`),
 			Global: []string{pp + "dns.dnsServers6"}, Stop: &fa}}},
-		{Pkg: "mtu", Fn: "Handler4", RespIdx: 1, Rows: []optRow{{Name: "mtu", Code: k4("OptionInterfaceMTU"), Gate: isReq4(k4("OptionInterfaceMTU")), Global: []string{pp + "mtu.mtu"}, Stop: &fa}}},
+		{Pkg: "mtu", Fn: "Handler4", RespIdx: 1, Rows: []optRow{{Name: "mtu", Code: k4("OptionInterfaceMTU"), Gate: isReq4(k4("OptionInterfaceMTU")), Global: []string{pp + "mtu.mtu"}, Stop: &fa, ListedOrAbsent: true}}},
 		{Pkg: "netmask", Fn: "Handler4", RespIdx: 1, Rows: []optRow{{Name: "netmask", Code: k4("OptionSubnetMask"), Gate: always, Global: []string{pp + "netmask.netmask"}, Stop: &fa}}},
 		{Pkg: "router", Fn: "Handler4", RespIdx: 1, Rows: []optRow{{Name: "router", Code: k4("OptionRouter"), Gate: always, Global: []string{pp + "router.routers"}, Stop: &fa}}},
 		{Pkg: "searchdomains", Fn: "domainSearchListHandler4", RespIdx: 1, Rows: []optRow{{Name: "searchdomains v4", Code: k4("OptionDNSDomainSearchList"), Gate: always, Global: []string{pp + "searchdomains.v4SearchList"}, Stop: &fa}}},
@@ -294,8 +317,8 @@ func ruleOptions(c *Ctx, prefix string) {
 			{Name: "nbp tftp server (66)", Code: k4("OptionTFTPServerName"), Gate: func(st *State) int {
 				o66, _ := histFact(st, "nil", regexp.MustCompile(`^`+reQ(pp+"nbp.opt66")+`$`))
 				return and3(isReq4(k4("OptionTFTPServerName"))(st), not3(o66))
-			}, Global: []string{pp + "nbp.opt66"}, Stop: &tr},
-			{Name: "nbp bootfile (67)", Code: k4("OptionBootfileName"), Gate: isReq4(k4("OptionBootfileName")), Global: []string{pp + "nbp.opt67"}, Stop: &tr},
+			}, Global: []string{pp + "nbp.opt66"}, Stop: &tr, ListedOrAbsent: true},
+			{Name: "nbp bootfile (67)", Code: k4("OptionBootfileName"), Gate: isReq4(k4("OptionBootfileName")), Global: []string{pp + "nbp.opt67"}, Stop: &tr, ListedOrAbsent: true},
 		}},
 		{Pkg: "nbp", Fn: "nbpHandler6", RespIdx: 1, NoEmitStop: true, Rows: []optRow{
 			{Name: "nbp bootfile url (59)", Code: k6("OptionBootfileURL"), Gate: func(st *State) int {
@@ -380,11 +403,13 @@ func ruleOptions(c *Ctx, prefix string) {
 func checkOptionHandler(c *Ctx, prefix string, fn *ssa.Function, sp optSpec) {
 	c.R.Functions[shortFn(fn)] = true
 	type siteRes struct {
-		e      *emission
-		states int
-		bad    map[string]string
-		row    *optRow
-		code   string
+		e         *emission
+		states    int
+		emptyList string
+		listedRow bool
+		bad       map[string]string
+		row       *optRow
+		code      string
 	}
 	sites := map[ssa.Instruction]*siteRes{}
 	var order []ssa.Instruction
@@ -451,6 +476,19 @@ func checkOptionHandler(c *Ctx, prefix string, fn *ssa.Function, sp optSpec) {
 				sr.bad["OPT.GATE"] = fmt.Sprintf("%s is emitted on a path where its entitlement condition is %s (decided: %s)", sr.row.Name, tri(g), strings.Join(shortAll(st.HistStrings()), " ∧ "))
 			}
 		}
+		if sr.row.ListedOrAbsent {
+			// (*DHCPv4).IsOptionRequested is true whenever ParameterRequestList() is nil, and the codec
+			// decodes a zero-length option 55 to a nil value: a list that is present and names nothing
+			// is answered like an absent one. The emission is within the specification only if the path
+			// knows the list absent, or the option a member of the decoded list.
+			prl := c.P.mustConst(c.R, pkgDHCP4, "OptionParameterRequestList")
+			has, _ := histFact(st, "bool", regexp.MustCompile(`^\(`+reQ(pkgDHCP4)+`\.Options\)\.Has(@(?:[\w$]+·)?t\d+)?\(\$0\.Options,`+reQ(prl)+`\)$`))
+			member, _ := histFact(st, "bool", regexp.MustCompile(`^\(`+reQ(pkgDHCP4)+`\.OptionCodeList\)\.Has(@(?:[\w$]+·)?t\d+)?\(\(\*`+reQ(pkgDHCP4)+`\.DHCPv4\)\.ParameterRequestList(@(?:[\w$]+·)?t\d+)?\(\$0\),`+reQ(sr.row.Code)+`\)$`))
+			if or3(not3(has), member) != 1 {
+				sr.emptyList = fmt.Sprintf("%s is emitted whenever IsOptionRequested is true, which includes a parameter request list that is present but empty (the codec decodes a zero-length option 55 to a nil list): such a client named no option and is answered as if it had sent no list", sr.row.Name)
+			}
+			sr.listedRow = true
+		}
 		vc := ex.Canon(st, sr.e.Opt).S
 		for _, g := range sr.row.Global {
 			if !strings.Contains(vc, g) {
@@ -509,6 +547,11 @@ func checkOptionHandler(c *Ctx, prefix string, fn *ssa.Function, sp optSpec) {
 			if g == 1 && !seen && !r0nil && len(exitBad) < 4 {
 				exitBad = append(exitBad, fmt.Sprintf("return at %s without %s although the client is entitled to it", c.P.InstrPos(in), row.Name))
 			}
+			// "listed or absent" rows: a path may leave the option out only after it has shown the client
+			// not entitled (a membership test that failed says nothing about a client that sent no list)
+			if row.ListedOrAbsent && !seen && !r0nil && len(exitBad) < 4 && memberTestedOnly(st, row.Code) {
+				exitBad = append(exitBad, fmt.Sprintf("return at %s without %s although the path has not shown that the client is not entitled to it (a client without a parameter request list is)", c.P.InstrPos(in), row.Name))
+			}
 			if seen && row.Stop != nil && (!r1known || (r1c == "true") != *row.Stop) && len(exitBad) < 4 {
 				exitBad = append(exitBad, fmt.Sprintf("after emitting %s the handler returns stop=%v, want %v", row.Name, r1c, *row.Stop))
 			}
@@ -548,6 +591,14 @@ func checkOptionHandler(c *Ctx, prefix string, fn *ssa.Function, sp optSpec) {
 		name := fmt.Sprintf("code %s", sr.code)
 		if sr.row != nil {
 			name = sr.row.Name
+		}
+		if sr.listedRow {
+			key := fmt.Sprintf("%s listed or absent", name) // the row, not the function's current name
+			if sr.emptyList != "" {
+				c.R.bad(prefix+"OPT.EMPTY-LIST", key, c.P.InstrPos(in), shortFn(fn), sr.emptyList)
+			} else {
+				c.R.ok(prefix+"OPT.EMPTY-LIST", key, c.P.InstrPos(in), shortFn(fn), "emitted only when the list is known absent or the option is a member of the decoded list")
+			}
 		}
 		for _, rule := range []string{"OPT.GATE", "OPT.CODE-AGREE", "OPT.ONCE", "OPT.VALUE"} {
 			key := fmt.Sprintf("%s emit#%d %s", shortFn(fn), n, name)
